@@ -1,5 +1,6 @@
 # unit `authz` (C02): authorization_rules.rs is_allowed / from_authorization_item, key.rs is_match, hyper_client query_pairs
 import os
+from vxlib import Undecided
 HERE = os.path.dirname(os.path.abspath(__file__))
 COMMON = os.path.join(os.path.dirname(HERE), "common")
 
@@ -18,10 +19,13 @@ def build(u):
     key = u.src("proxy_agent/src/key_keeper/key.rs")
     hc = u.src("proxy_agent/src/common/hyper_client.rs")
     u.features += ["allocator_api", "sized_hierarchy"]
+    u.features += ["pattern"]
     for f in ("str_axioms.rs", "ext_types.rs", "std_string.rs"):
         u.raw(open(os.path.join(COMMON, f)).read())
-    u.raw_file("deps.rs")
+    u.raw("use vstd::std_specs::hash::*;")
+    u.raw(open(os.path.join(COMMON, "hash_iter.rs")).read())
     u.raw_file("spec.rs")
+    u.raw_file("deps.rs")
     with u.mod("proxy", uses="use std::{ffi::OsString, path::PathBuf};"):
         u.take(px, "Claims", "struct", keep_derive=("Clone",))
         with u.mod("proxy_connection", uses="use log::Level as LoggerLevel;"):
@@ -98,16 +102,58 @@ let ghost mut done: Set<String> = Set::empty();
                     ],
                     loop_ends={0: "proof { done = done.insert(privilege.name); }"},
                 )
+    with u.mod("common"):
+        with u.mod("hyper_client", uses="use http::Uri;"):
+            u.take_fn(hc, "query_pairs", external_body=True, contract="""
+        ensures pairs_view(r@) == url_pairs(*uri),
+""")
     with u.mod("key_keeper"):
-        with u.mod("key", uses="use std::collections::HashMap;\nuse crate::proxy::{proxy_connection::ConnectionLogger, Claims};\nuse http::Uri;\nuse log::Level as LoggerLevel;"):
+        with u.mod("key", uses="use std::collections::HashMap;\nuse crate::proxy::{proxy_connection::ConnectionLogger, Claims};\nuse http::Uri;\nuse log::Level as LoggerLevel;\nuse crate::common::hyper_client;\nuse vstd::std_specs::hash::*;"):
             u.take(key, "Privilege", "struct")
             u.take(key, "Identity", "struct")
             for t in ("Role", "RoleAssignment", "AccessControlRules", "AuthorizationItem"):
                 u.take(key, t, "struct")
             with u.impl_(key, "Privilege"):
-                u.take_fn(key, "Privilege::is_match", external_body=True, contract="""
-        ensures r == pmatch(*self, *request_url),
-""")
+                pit = key.item("Privilege::is_match", "fn")
+                finds = [c for c in pit["calls"] if c["kind"] == "method" and c["callee"] == "find"]
+                intos = [c for c in pit["calls"] if c["kind"] == "method" and c["callee"] == "into_iter"]
+                if len(finds) != 1 or len(intos) != 1 or len(pit["closures"]) != 1:
+                    raise Undecided("Privilege::is_match: expected one .into_iter().find(closure) chain")
+                fnd, into, clo = finds[0], intos[0], pit["closures"][0]
+                if not (fnd["receiver"] == into["span"] and fnd["span"][0] <= clo["span"][0] and clo["span"][1] <= fnd["span"][1]):
+                    raise Undecided("Privilege::is_match: find/into_iter/closure nesting changed")
+                recv = key.s(into["receiver"][0], into["receiver"][1])          # hyper_client::query_pairs(request_url)
+                tail = key.s(into["receiver"][1], fnd["span"][1])               # .into_iter().find(|(k, _)| ...)
+                u.take_fn(key, "Privilege::is_match",
+                    extra_attrs="#[verifier::loop_isolation(false)]",
+                    contract="""
+        requires obeys_key_model::<String>(),
+        ensures r == pmatch(*self, *request_url),  // @C02.Privilege_is_match.equals_declared_match
+""",
+                    pre_body="broadcast use vstd::std_specs::hash::group_hash_axioms;\nbroadcast use axiom_pat_view_string;\nbroadcast use axiom_lower_idempotent;",
+                    loop_iter_names={0: "it"},
+                    loops={0: """
+                    invariant
+                        self.queryParameters == Some(*query_parameters),
+                        forall|i: int| 0 <= i < it.seq().len() ==> query_parameters@.contains_key(*(#[trigger] it.seq()[i]).0) && query_parameters@[*it.seq()[i].0] == *it.seq()[i].1,
+                        forall|k: String| query_parameters@.contains_key(k) ==> exists|i: int| 0 <= i < it.seq().len() && *(#[trigger] it.seq()[i]).0 == k,
+                        forall|i: int| 0 <= i < it.index@ ==> param_ok(url_pairs(*request_url), (*(#[trigger] it.seq()[i]).0)@, (*it.seq()[i].1)@),
+"""},
+                    hints=[
+                        ("return false;", 0, "before", "proof { let i0 = it.index@; assert(*it.seq()[i0].0 == *key); assert(query_parameters@.contains_key(*key)); }"),
+                        ("return false;", 1, "before", "proof { let i0 = it.index@; assert(*it.seq()[i0].0 == *key); assert(query_parameters@.contains_key(*key)); }"),
+                    ],
+                    e9=[((fnd["span"][0], fnd["span"][1]), None, "pairs: Vec<(String, String)>, key: &String", recv + ", key",
+                         "Option<(String, String)>", """
+    ensures (r matches Some(p) ==> first_value(pairs_view(pairs@), key@) == Some(p.1@)),
+            (r is None ==> first_value(pairs_view(pairs@), key@) is None),""",
+                         dict(name="vx_e9_first_pair_with_key", body="pairs" + tail))],
+                )
+            # E5c: the closure given to `find` is lifted verbatim and verified: it is the predicate of first_value
+            u.slice_fn(key, "Privilege::is_match", "vx_closure_find_key", clo["body"][0], clo["body"][1],
+                       "k: &String, key: &String", ret_type="bool", contract="""
+        ensures r == (lower(k@) == lower(key@)),  // @C02.Privilege_is_match.query_key_compared_case_insensitively
+""", what="(closure passed to find)")
             with u.impl_(key, "Identity"):
                 u.take_fn(key, "Identity::is_match", external_body=True, contract="""
         ensures r == imatch(*self, *claims),
